@@ -58,6 +58,9 @@ SCALAR = {"int": "1", "long": "1", "size_t": "1", "unsigned long": "1", "unsigne
           "spif_char_t": "'a'", "spif_uint8_t": "'a'", "spif_int32_t": "2", "spif_uint32_t": "1", "spif_bool_t": "TRUE", "unsigned char": "0", "char": "'a'", "register size_t": "1",
           "spif_uint16_t": "1", "double": "1.0", "unsigned int": "1", "spif_sockport_t": "1", "register unsigned short": "1", "register spif_int32_t": "2"}
 
+IDX_TYPES = ("spif_listidx_t", "spif_stridx_t", "spif_ustridx_t", "spif_memidx_t")
+IDX_ALT = ["40", "-1"]          # the other arguments are "valid" for any position value: past the end and negative positions too
+
 FUNC_RE = re.compile(r"^((?:static\s+)?[A-Za-z_][\w \t\*]*?)\s*\n(\w+)\(([^)]*)\)\s*\n\{", re.M)
 GUARDS = [
     (re.compile(r"\b(ASSERT_RVAL|REQUIRE_RVAL)\(\(?\s*!SPIF_\w+_ISNULL\((\w+)\)\s*\)?,\s*(.*)\);\s*$"), "isnull"),
@@ -171,7 +174,15 @@ def emit(rows, funcs, out_path, pinned_keys):
     L.append("#include \"h_null_pre.h\"")
     cases = []
     unsupported = []
+    expanded = []
     for r in rows:
+        expanded.append(r)
+        fn = funcs.get(r["func"])
+        names = [nm for (ty, nm) in fn["params"] if ty in IDX_TYPES] if fn else []
+        if names:
+            for alt in IDX_ALT:
+                expanded.append(dict(r, variant=alt, variant_names="/".join(names)))
+    for r in expanded:
         fn = funcs.get(r["func"])
         if not fn:
             unsupported.append("%s: function no longer defined" % r["func"])
@@ -201,7 +212,7 @@ def emit(rows, funcs, out_path, pinned_keys):
                     snaps.append((i, snap))
                 args.append("a%d" % i)
             elif ty in SCALAR:
-                args.append("(%s) %s" % (ty.replace("register ", ""), SCALAR[ty]))
+                args.append("(%s) %s" % (ty.replace("register ", ""), r["variant"] if ("variant" in r and ty in IDX_TYPES) else SCALAR[ty]))
             else:
                 ok = False
                 unsupported.append("%s: parameter type '%s'" % (r["func"], ty))
@@ -240,7 +251,7 @@ def emit(rows, funcs, out_path, pinned_keys):
         body.append("}")
         L += body
         key = "%s#%d" % (r["func"], r["pos"])
-        cases.append((cid, r, key in pinned_keys))
+        cases.append((cid, dict(r, param=r["param"] if "variant" not in r else "%s (with %s=%s)" % (r["param"], r["variant_names"], r["variant"])), key in pinned_keys))
     L.append("const null_case_t NULL_CASES[] = {")
     for cid, r, pinned in cases:
         L.append("    { case_%d, \"%s\", %d, \"%s\", \"%s\", \"%s\", %d }," % (cid, r["func"], r["pos"], r["param"], r["kind"], r["val"].replace("\\", "\\\\").replace("\"", "\\\""), 1 if pinned else 0))
